@@ -219,30 +219,29 @@ Proof.
   - cbn [fst snd option_map]. repeat split. exact H.
 Qed.
 
-Definition strip (h : list (option nat * op)) : list (option nat * op) := map (fun x => (None, snd x)) h.
+Definition strip (h : list (option nat * mode * op)) : list (option nat * mode * op) :=
+  map (fun x => (None, snd (fst x), snd x)) h.
 
-(* MAIN (histories): any number of clients, any initial cache contents, caches shared between clients,
-   entries rewritten at any time: observations and the final store are those of the cache-less run *)
-Theorem run_ops_transparent : forall m h caches st, sym_intact st -> Forall (fun x => wf_op (snd x)) h ->
-  fst (fst (run_ops true m caches st h)) = fst (fst (run_ops true m [] st (strip h))) /\
-  snd (run_ops true m caches st h) = snd (run_ops true m [] st (strip h)).
+(* MAIN (histories): any number of clients with any keys, any initial cache contents, caches shared
+   between clients, entries rewritten at any time: observations and the final store are those of the
+   cache-less run *)
+Theorem run_ops_transparent : forall h caches st, sym_intact st -> Forall (fun x => wf_op (snd x)) h ->
+  observations (run_ops true caches st h) = observations (run_ops true [] st (strip h)) /\
+  snd (run_ops true caches st h) = snd (run_ops true [] st (strip h)).
 Proof.
-  intros m; induction h as [|[cl o] r IH]; intros caches st H W; [split; reflexivity|].
+  induction h as [|[[cl m] o] r IH]; intros caches st H W; [split; reflexivity|].
   inversion W as [|x l Wo Wr]; subst. cbn [snd] in Wo.
-  cbn [run_ops strip map snd].
+  cbn [run_ops strip map snd fst].
   set (ca := match cl with Some i => nth_error caches i | None => None end).
   destruct (step_transparent m ca st o H Wo) as [E1 [E2 E3]].
   destruct (step true m ca st o) as [[ob ca'] st'] eqn:S1.
   destruct (step true m None st o) as [[ob0 ca0] st0] eqn:S0.
   cbn [fst snd] in E1, E2, E3. subst ob0 st0.
-  assert (Hc0 : ca0 = None).
-  { destruct o; cbn [step] in S0; try (injection S0 as _ <- _; reflexivity).
-    - destruct (sym_load true m _ None st); injection S0 as _ <- _; reflexivity.
-    - destruct (sym_load true m _ None st); [destruct (forallb _ _ && forallb _ _)|]; injection S0 as _ <- _; reflexivity. }
-  subst ca0. fold (strip r).
+  fold (strip r).
   set (caches' := match cl, ca' with Some i, Some c => set_nth i c caches | _, _ => caches end).
   destruct (IH caches' st' E3 Wr) as [I1 I2].
-  destruct (run_ops true m caches' st' r) as [[obs cs] s] eqn:R1.
-  destruct (run_ops true m [] st' (strip r)) as [[obs0 cs0] s0] eqn:R0.
-  cbn [fst snd] in *. subst. split; reflexivity.
+  assert (Hc : match ca0 with Some c => set_nth 0 c [] | None => [] end = @nil store) by (destruct ca0; reflexivity).
+  destruct (run_ops true caches' st' r) as [[obs cs] s] eqn:R1.
+  destruct (run_ops true [] st' (strip r)) as [[obs0 cs0] s0] eqn:R0.
+  unfold observations in *. cbn [fst snd map] in *. subst. split; [f_equal; exact I1 | reflexivity].
 Qed.
